@@ -351,6 +351,19 @@ fn suite_raw(g: &Gram, out: &mut Out, rng: &mut Rng, n: usize) {
             for o in insts[j].ops.iter_mut() { if o.s.is_some() { o.s = Some(rng.pick(&bad_strings).clone()); break; } }
             tag = "raw-nonutf8";
         }
+        // an undeclared bit in a mask operand / an undeclared value of an enum operand: if the loader accepts the binary
+        // (the pinned tree does not), the word must still come back as it went in
+        if k % 5 == 4 {
+            let mut sites: Vec<(usize, usize, u32)> = vec![];
+            for (j, i) in insts.iter().enumerate() { for (oi, o) in i.ops.iter().enumerate() {
+                match g.kinds.get(&o.k) {
+                    Some(KindG::BitEnum { all, .. }) => { for b in [0x4000_0000u32, 0x0080_0000, 0x8000_0000] { if all & b == 0 { sites.push((j, oi, o.w[0] | b)); break; } } }
+                    Some(KindG::ValueEnum { values }) => { let v = 0x0000_7ff0 + (k as u32 % 7); if !values.iter().any(|x| x.0 == v) { sites.push((j, oi, v)); } }
+                    _ => {}
+                }
+            } }
+            if !sites.is_empty() { let (j, oi, w) = *rng.pick(&sites); insts[j].ops[oi].w[0] = w; tag = "raw-undeclared"; }
+        }
         let mut ws: Vec<u32> = HEADER.to_vec();
         ws[3] = rng.below(5000) as u32;
         for i in &insts { ws.extend(i.encode()); }
